@@ -93,8 +93,35 @@ def chain_sig(row, what):
     return "C20/chain/ws=%s/E=%d/%s/D=%d/%s" % (row["W"], row["E"], flags, row["D"], what)
 
 
+def replay(ctx):
+    rec = json.load(open(ctx.replay))
+    d = rec["detail"]["first"]
+    path = d.get("path", "main/a.lua")
+    case = {"id": 0, "emmyrc": d["emmyrc"], "std": False, "files": [{"path": path, "text": d["program"]}], "query": [path]}
+    o = _diag.run_diag(ctx, [case], "replay")[0]
+    ctx.count(json.dumps(case, sort_keys=True))
+    if "panic" in o:
+        ctx.violation(rec["signature"], {"count": 1, "first": dict(d, panic=o["panic"]), "more": []})
+        return
+    res = o["results"][path] or []
+    sig = rec["signature"]
+    if sig.startswith("C20/severity/override"):
+        again = {x["sev"] for x in res if x["code"] == d["code"]} != {d["expected"]}
+    elif sig.startswith("C20/globals/") and "name" in d:
+        names = {x["msg"].rsplit(" ", 1)[-1] for x in res if x["code"] == "undefined-global"}
+        again = (d["name"] in names) != d["expected_reported"]
+    elif "code" in d and "expected" in d:
+        again = (d["code"] in {x["code"] for x in res}) != (d["expected"] == "report")
+    else:
+        raise vlib.ToolError("replay of %s not supported" % sig)
+    if again:
+        ctx.violation(sig, rec["detail"])
+
+
 def run(ctx):
     vlib.build(["vh-analysis"])
+    if ctx.replay:
+        return replay(ctx)
     res = vlib.tlc("DiagRules", "DiagRules_cfg", workers=2, timeout=300)
     if res.violated:
         raise vlib.ToolError("DiagRules.tla part 2: %s\n%s" % (res.violated, res.trace_text[:3000]))
